@@ -9,7 +9,7 @@ From J5V.lib Require Import Text Outcome.
 From J5V.model Require Import BclLexer BclParser BclFmt.
 From J5V.proofs Require Import BclPosProofs BclLexerProofs BclParserProofs BclFmtLitProofs BclLexLitProofs
                                BclFmtSeqProofs BclFragWfProofs BclFmtLineProofs BclWalkBackProofs BclReflowProofs
-                               BclTextProofs BclFmtFileProofs BclTokEndProofs.
+                               BclTextProofs BclFmtFileProofs BclTokEndProofs BclLexerCoverProofs.
 Import ListNotations.
 Local Open Scope Z_scope.
 Arguments Nat.sub : simpl never.
@@ -78,4 +78,57 @@ Proof.
       unfold desc_lines, dline_text. destruct (reformat_description (dvalue d) (80 - Z.of_nat n * 4)); reflexivity.
   - apply Hcomb. apply (single_line_step (FComment t) n _ s _ (tstart t) (tend t) Hf); [discriminate|]. exact Hr.
   - apply Hcomb. apply (single_line_step (FClose t) (Nat.pred n) _ s _ (tstart t) (tend t) Hf); [discriminate|]. exact Hr.
+Qed.
+
+(* ---- (4) the EOL token: the lexer is left ON the newline rune, which is the token's start and end ----- *)
+Lemma next_token_eol_state : forall fuel s t s', next_token_fuel fuel s = (LTok t, s') -> ty t = EOL ->
+  ch s' = Some 10%N /\ tstart t = get_pos s' /\ tend t = get_pos s'.
+Proof.
+  induction fuel as [|f IH]; intros s t s'; cbn [next_token_fuel]; [discriminate|].
+  destruct (ch (next s)) as [c|] eqn:Hch; [|discriminate].
+  destruct (op_of c) as [op|] eqn:Eop.
+  { intros [= <- <-]. cbn [ty]. intros ->. exfalso.
+    revert Eop. unfold op_of, model_operators. cbn [assoc_N].
+    repeat (match goal with |- context [N.eqb ?k c] => destruct (N.eqb k c) eqn:? end; [intros [= E]; discriminate E|]).
+    discriminate. }
+  destruct (N.eqb c 47) eqn:E47.
+  { destruct (opt_eq (peek (next s)) 47) eqn:E1; [|destruct (opt_eq (peek (next s)) 42) eqn:E2].
+    - unfold lift_lit. destruct (lex_line_comment (next s)) as [l s1|d s1|]; try discriminate.
+      intros [= <- <-]. cbn. discriminate.
+    - unfold lift_lit. destruct (lex_block_comment (next s)) as [l s1|d s1|]; try discriminate.
+      intros [= <- <-]. cbn. discriminate.
+    - unfold lift_lit. destruct (lex_regex (next s)) as [l s1|d s1|]; try discriminate.
+      intros [= <- <-]. cbn. discriminate. }
+  destruct (N.eqb c 34) eqn:E34.
+  { unfold lift_lit. destruct (lex_string (next s)) as [l s1|d s1|]; try discriminate. intros [= <- <-]. cbn. discriminate. }
+  destruct (N.eqb c 124) eqn:E124.
+  { unfold lift_lit. destruct (lex_description_line (next s)) as [l s1|d s1|]; try discriminate.
+    intros [= <- <-]. cbn. discriminate. }
+  destruct (N.eqb c 10) eqn:E10.
+  { intros [= <- <-]. cbn. intros _. apply N.eqb_eq in E10. subst c. auto. }
+  destruct (is_space c) eqn:Esp.
+  { apply IH. }
+  destruct (is_digit c) eqn:Edg.
+  { unfold lex_number.
+    destruct (number_loop _ (next s) false (ch_list (next s))) as [[typ l] s1|d s1|] eqn:E; try discriminate.
+    intros [= <- <-]. cbn [ty]. destruct (number_loop_type _ _ _ _ _ _ _ E) as [-> | ->]; discriminate. }
+  destruct (is_letter c) eqn:Elt; [|discriminate].
+  unfold lex_ident. destruct (ident_loop _ (next s) (ch_list (next s))) as [l s1|d s1|] eqn:E; try discriminate.
+  destruct (list_N_eqb l lit_true || list_N_eqb l lit_false)%bool; intros [= <- <-]; cbn; discriminate.
+Qed.
+
+(* the closing EOL of a block: when the text consumed up to the state after it is [A ++ [10]], the token sits
+   on the line count_nl A (its start and end) *)
+Theorem closing_eol_line inp sm pm t s1 A : linv inp sm pm -> next_token sm = (LTok t, s1) -> ty t = EOL ->
+  inp = (A ++ [10%N]) ++ rest s1 ->
+  tstart t = P A /\ tend t = P A /\ fst (tstart t) = Z.of_nat (count_nl A) /\ linv inp s1 (A ++ [10%N]).
+Proof.
+  intros Hi E Hty Hinp.
+  destruct (next_token_eol_state _ _ _ _ E Hty) as (Hch & Hs & He).
+  destruct (tok_end_by_rest inp sm pm t s1 Hi E) as [(pe & c & H1 & H2 & H3 & _)|[Hl _]].
+  - assert (Hpe : pe ++ [c] = A ++ [10%N]).
+    { apply (app_inv_tail (rest s1)). rewrite <- Hinp, <- app_assoc. symmetry. exact H1. }
+    apply app_inj_tail in Hpe. destruct Hpe as [-> ->].
+    rewrite Hs, <- He, H2. split; [reflexivity|]. split; [reflexivity|]. split; [apply P_line|exact H3].
+  - exfalso. rewrite (le_ch _ _ Hl) in Hch. discriminate.
 Qed.
